@@ -31,12 +31,15 @@ cdf non-decreasing, from 0 to 1                     weibull_cdf_monotone, weibul
                                                       gumbel_cdf_strictMono, gumbel_cdf_monotone, gumbel_cdf_pos,
                                                       gumbel_cdf_lt_one, gumbel_cdf_tendsto_zero/_one
 pdf = d/dx cdf                                      weibull_hasDerivAt_cdf, ew_hasDerivAt_cdf, gumbel_hasDerivAt_cdf
-pdf ≥ 0, = 0 off the support                        weibull_pdf_nonneg, weibull_pdf_zero_off_support, ew_…,
+pdf ≥ 0, = 0 off the support                        weibull_pdf_nonneg (+ weibull_pdf_pos on the open support),
+                                                      weibull_pdf_zero_off_support, ew_…,
                                                       lognormal_pdf_…, normal_pdf_nonneg, gg_pdf_…, vonmises_pdf_nonneg,
                                                       gumbel_pdf_pos (support = the whole line)
-families whose special function is scipy's          …_partial: lognormal / normal / gg / vonmises inverse and
-                                                      monotonicity laws RELATIVE TO an abstract Φ, P(m,·), V_κ that
-                                                      is monotone with the stated inverse (= scipy's contract).
+families whose special function is scipy's          …_partial: lognormal / normal / gg / vonmises inverse,
+                                                      monotonicity, RANGE [0,1] (…_cdf_range_partial) and LIMIT 0 / 1
+                                                      (…_cdf_tendsto_partial; von Mises: values 0 / 1 at μ∓π) laws
+                                                      RELATIVE TO an abstract Φ, P(m,·), V_κ that is monotone with
+                                                      the stated inverse, range and limits (= scipy's contract).
                                                       FULL STATEMENT (for scipy's actual ndtr/gammainc/von Mises
                                                       cdf, and pdf = d/dx cdf for these families) is not provable
                                                       here: only observed numerically by harness/c05.py.
@@ -230,6 +233,10 @@ theorem weibull_cdf_tendsto_zero : Tendsto (weibullCdf realTr a b g) atBot (𝓝
   filter_upwards [eventually_le_atBot g] with x hx
   exact (weibull_cdf_eq_of_le hx).symm
 
+/-- TOTALISATION NOTE: at `x = g` with `b < 1` the real density diverges, while the formula gives
+`0 ^ (b-1) = 0` with Mathlib's `Real.zero_rpow` (scipy returns `inf` there); the statement at that one
+point is about Lean's value. Everywhere else (`x ≠ g`, or `b ≥ 1`) no convention is involved; on the
+open support the density is strictly positive (`weibull_pdf_pos`). -/
 theorem weibull_pdf_nonneg (ha : 0 < a) (hb : 0 < b) (x : ℝ) : 0 ≤ weibullPdf realTr a b g x := by
   simp only [weibullPdf, realTr]
   split_ifs with h
@@ -238,6 +245,14 @@ theorem weibull_pdf_nonneg (ha : 0 < a) (hb : 0 < b) (x : ℝ) : 0 ≤ weibullPd
     have := Real.rpow_nonneg hz (b - 1)
     have := (Real.exp_pos (-(((x - g) / a) ^ b))).le
     positivity
+
+theorem weibull_pdf_pos (ha : 0 < a) (hb : 0 < b) {x : ℝ} (hx : g < x) :
+    0 < weibullPdf realTr a b g x := by
+  simp only [weibullPdf, realTr, if_neg (not_lt.2 hx.le)]
+  have hz : 0 < (x - g) / a := div_pos (sub_pos.2 hx) ha
+  have := Real.rpow_pos_of_pos hz (b - 1)
+  have := Real.exp_pos (-(((x - g) / a) ^ b))
+  positivity
 
 theorem weibull_pdf_zero_off_support {x : ℝ} (hx : x < g) : weibullPdf realTr a b g x = 0 := by
   simp [weibullPdf, hx]
@@ -423,7 +438,10 @@ theorem gumbel_cdf_icdf (hs : s ≠ 0) {p : ℝ} (hp0 : 0 < p) (hp1 : p < 1) :
 
 theorem gumbel_cdf_pos (x : ℝ) : 0 < gumbelCdf realTr l s x := Real.exp_pos _
 
-theorem gumbel_cdf_lt_one (x : ℝ) : gumbelCdf realTr l s x < 1 := by
+/-- (`hs` is not used by the proof: at `s = 0` the statement would hold only through `x/0 = 0`,
+where the formula is `exp(-1)` and not a Gumbel law; the hypothesis keeps the theorem about
+admissible scales) -/
+theorem gumbel_cdf_lt_one (_hs : s ≠ 0) (x : ℝ) : gumbelCdf realTr l s x < 1 := by
   simp only [gumbelCdf, realTr]
   rw [Real.exp_lt_one_iff]
   have := Real.exp_pos (-((x - l) / s))
@@ -463,7 +481,9 @@ theorem gumbel_pdf_pos (hs : 0 < s) (x : ℝ) : 0 < gumbelPdf realTr l s x := by
   have := Real.exp_pos (-((x - l) / s + Real.exp (-((x - l) / s))))
   positivity
 
-theorem gumbel_hasDerivAt_cdf (x : ℝ) :
+/-- (`hs` is not used by the proof: at `s = 0` both sides are the constant `exp(-1)` resp. `0` by
+`x/0 = 0`, true but not about a Gumbel law) -/
+theorem gumbel_hasDerivAt_cdf (_hs : s ≠ 0) (x : ℝ) :
     HasDerivAt (gumbelCdf realTr l s) (gumbelPdf realTr l s x) x := by
   have h1 : HasDerivAt (fun y : ℝ => (y - l) / s) (1 / s) x :=
     ((hasDerivAt_id x).sub_const l).div_const s
@@ -658,6 +678,111 @@ theorem vonmises_pdf_nonneg (i0k kappa : ℝ) (hI : 0 < i0k) (x : ℝ) :
 
 end partial_laws
 
+/-! ### "cdf from 0 to 1" for the families whose special function is scipy's
+
+FULL STATEMENT (not provable here): for scipy's actual `ndtr`, `gammainc`, von Mises cdf the cdf has
+range [0, 1] and the limits 0 / 1 at the ends of the support.  Proven part: the same RELATIVE TO an
+abstract leaf `Phi` / `P m ·` / `V` with range [0, 1] and the stated limits (scipy's contract; the
+non-vacuity example below exhibits such a leaf); what virocon adds (location / scale / log / power
+maps, the `x ≤ 0` branch) preserves range and limits, including the limit 0 from the right at the
+lower end of the support. -/
+section range_limits
+variable {mu sigma : ℝ}
+
+theorem normal_cdf_range_partial (Phi : ℝ → ℝ) (h0 : ∀ z, 0 ≤ Phi z) (h1 : ∀ z, Phi z ≤ 1) (x : ℝ) :
+    0 ≤ normalCdf Phi mu sigma x ∧ normalCdf Phi mu sigma x ≤ 1 := ⟨h0 _, h1 _⟩
+
+theorem normal_cdf_tendsto_partial (Phi : ℝ → ℝ) (hbot : Tendsto Phi atBot (𝓝 0))
+    (htop : Tendsto Phi atTop (𝓝 1)) (hs : 0 < sigma) :
+    Tendsto (normalCdf Phi mu sigma) atBot (𝓝 0) ∧ Tendsto (normalCdf Phi mu sigma) atTop (𝓝 1) := by
+  have hb : Tendsto (fun x : ℝ => (x - mu) / sigma) atBot atBot :=
+    (tendsto_atBot_add_const_right _ (-mu) tendsto_id).atBot_div_const hs
+  have ht : Tendsto (fun x : ℝ => (x - mu) / sigma) atTop atTop :=
+    (tendsto_atTop_add_const_right _ (-mu) tendsto_id).atTop_div_const hs
+  exact ⟨hbot.comp hb, htop.comp ht⟩
+
+theorem lognormal_cdf_range_partial (Phi : ℝ → ℝ) (h0 : ∀ z, 0 ≤ Phi z) (h1 : ∀ z, Phi z ≤ 1) (x : ℝ) :
+    0 ≤ lognormalCdf realTr Phi mu sigma x ∧ lognormalCdf realTr Phi mu sigma x ≤ 1 := by
+  simp only [lognormalCdf]
+  split_ifs
+  · exact ⟨le_rfl, zero_le_one⟩
+  · exact ⟨h0 _, h1 _⟩
+
+theorem lognormal_cdf_tendsto_partial (Phi : ℝ → ℝ) (hbot : Tendsto Phi atBot (𝓝 0))
+    (htop : Tendsto Phi atTop (𝓝 1)) (hs : 0 < sigma) :
+    Tendsto (lognormalCdf realTr Phi mu sigma) atBot (𝓝 0) ∧
+    Tendsto (lognormalCdf realTr Phi mu sigma) (𝓝[>] 0) (𝓝 0) ∧
+    Tendsto (lognormalCdf realTr Phi mu sigma) atTop (𝓝 1) := by
+  refine ⟨?_, ?_, ?_⟩
+  · refine tendsto_const_nhds.congr' ?_
+    filter_upwards [eventually_le_atBot 0] with x hx
+    simp [lognormalCdf, hx]
+  · have hl : Tendsto (fun x : ℝ => (Real.log x - mu) / sigma) (𝓝[>] 0) atBot :=
+      (tendsto_atBot_add_const_right _ (-mu) Real.tendsto_log_nhdsGT_zero).atBot_div_const hs
+    refine (hbot.comp hl).congr' ?_
+    filter_upwards [self_mem_nhdsWithin] with x hx
+    have hx' : 0 < x := hx
+    simp [lognormalCdf, realTr, not_le.2 hx']
+  · have hl : Tendsto (fun x : ℝ => (Real.log x - mu) / sigma) atTop atTop :=
+      (tendsto_atTop_add_const_right _ (-mu) Real.tendsto_log_atTop).atTop_div_const hs
+    refine (htop.comp hl).congr' ?_
+    filter_upwards [eventually_gt_atTop 0] with x hx
+    simp [lognormalCdf, realTr, not_le.2 hx]
+
+variable {m c lam : ℝ}
+
+theorem gg_cdf_range_partial (P : ℝ → ℝ → ℝ) (h0 : ∀ t, 0 ≤ P m t) (h1 : ∀ t, P m t ≤ 1) (x : ℝ) :
+    0 ≤ ggCdf realTr P m c lam x ∧ ggCdf realTr P m c lam x ≤ 1 := by
+  simp only [ggCdf]
+  split_ifs
+  · exact ⟨le_rfl, zero_le_one⟩
+  · exact ⟨h0 _, h1 _⟩
+
+theorem gg_cdf_tendsto_partial (P : ℝ → ℝ → ℝ) (hzero : Tendsto (P m) (𝓝[>] 0) (𝓝 0))
+    (htop : Tendsto (P m) atTop (𝓝 1)) (hc : 0 < c) (hl : 0 < lam) :
+    Tendsto (ggCdf realTr P m c lam) atBot (𝓝 0) ∧
+    Tendsto (ggCdf realTr P m c lam) (𝓝[>] 0) (𝓝 0) ∧
+    Tendsto (ggCdf realTr P m c lam) atTop (𝓝 1) := by
+  refine ⟨?_, ?_, ?_⟩
+  · refine tendsto_const_nhds.congr' ?_
+    filter_upwards [eventually_le_atBot 0] with x hx
+    simp [ggCdf, hx]
+  · have hcont : Tendsto (fun x : ℝ => (lam * x) ^ c) (𝓝[>] 0) (𝓝 0) := by
+      have h1 : Tendsto (fun x : ℝ => lam * x) (𝓝 0) (𝓝 (lam * 0)) :=
+        (continuous_const.mul continuous_id).tendsto 0
+      have h2 := (h1.rpow_const (p := c) (Or.inr hc.le))
+      rw [mul_zero, Real.zero_rpow hc.ne'] at h2
+      exact h2.mono_left nhdsWithin_le_nhds
+    have hpos : ∀ᶠ x in 𝓝[>] (0 : ℝ), (lam * x) ^ c ∈ Set.Ioi (0 : ℝ) := by
+      filter_upwards [self_mem_nhdsWithin] with x hx
+      exact Real.rpow_pos_of_pos (mul_pos hl hx) c
+    have hw : Tendsto (fun x : ℝ => (lam * x) ^ c) (𝓝[>] 0) (𝓝[>] 0) :=
+      tendsto_nhdsWithin_iff.2 ⟨hcont, hpos⟩
+    refine (hzero.comp hw).congr' ?_
+    filter_upwards [self_mem_nhdsWithin] with x hx
+    have hx' : 0 < x := hx
+    simp [ggCdf, realTr, not_le.2 hx']
+  · have hl' : Tendsto (fun x : ℝ => (lam * x) ^ c) atTop atTop :=
+      (tendsto_rpow_atTop hc).comp (tendsto_id.const_mul_atTop hl)
+    refine (htop.comp hl').congr' ?_
+    filter_upwards [eventually_gt_atTop 0] with x hx
+    simp [ggCdf, realTr, not_le.2 hx]
+
+/-- von Mises on one period `[μ-π, μ+π]` (the documented support): 0 at the lower end, 1 at the upper
+end, in [0, 1] in between; relative to a monotone standard cdf `V` with `V(-π) = 0`, `V(π) = 1` -/
+theorem vonmises_cdf_range_partial (V : ℝ → ℝ) (hmono : Monotone V) (hlo : V (-Real.pi) = 0)
+    (hhi : V Real.pi = 1) :
+    vonMisesCdf V mu (mu - Real.pi) = 0 ∧ vonMisesCdf V mu (mu + Real.pi) = 1 ∧
+    ∀ x, mu - Real.pi ≤ x → x ≤ mu + Real.pi → 0 ≤ vonMisesCdf V mu x ∧ vonMisesCdf V mu x ≤ 1 := by
+  refine ⟨?_, ?_, fun x h1 h2 => ⟨?_, ?_⟩⟩
+  · simp only [vonMisesCdf]; rw [show mu - Real.pi - mu = -Real.pi by ring, hlo]
+  · simp only [vonMisesCdf]; rw [add_sub_cancel_left, hhi]
+  · simp only [vonMisesCdf]; rw [← hlo]; exact hmono (by linarith)
+  · simp only [vonMisesCdf]; rw [← hhi]; exact hmono (by linarith)
+
+end range_limits
+
+
 /-! ### scipy's (shape, loc, scale) form under the generated slot map = documented formula -/
 section scipy_form
 
@@ -729,7 +854,7 @@ theorem scipy_form_eq_documented_ew (a b d : ℝ) (ha : 0 < a) :
     · simp only [realTr]; ring
   · simp only [locScalePpf, stdExpWeibPpf, ewIcdf]; ring
 
-theorem scipy_form_eq_documented_lognormal (Phi PhiInv : ℝ → ℝ) (mu sigma : ℝ) :
+theorem scipy_form_eq_documented_lognormal (Phi PhiInv : ℝ → ℝ) (mu sigma : ℝ) (hs : sigma ≠ 0) :
     slotValues 1 [mu, sigma] = some ("lognorm", [sigma, 0, Real.exp mu]) ∧
     ∀ x, locScaleCdf (stdLognormCdf realTr Phi sigma) 0 (Real.exp mu) x = lognormalCdf realTr Phi mu sigma x ∧
       locScalePdf (stdLognormPdf realTr sigma) 0 (Real.exp mu) x = lognormalPdf realTr mu sigma x ∧
@@ -751,9 +876,7 @@ theorem scipy_form_eq_documented_lognormal (Phi PhiInv : ℝ → ℝ) (mu sigma 
       simp only [realTr, sub_zero]
       rw [Real.log_div hx.ne' he.ne', Real.log_exp]
       have hsq : 0 < Real.sqrt (2 * Real.pi) := Real.sqrt_pos.2 (by positivity)
-      rcases eq_or_ne sigma 0 with hs | hs
-      · subst hs; simp
-      · field_simp
+      field_simp
   · simp only [locScalePpf, stdLognormPpf, lognormalIcdf, realTr]
     rw [add_zero, ← Real.exp_add]; ring_nf
 
@@ -864,6 +987,11 @@ example : ∃ r ∈ getRows, r.fam = 9 ∧ r.expl = [0] ∧ r.mode = 1 ∧
     r.result = some ("gumbel_r", "ppf", [.expl 0, .arg 1]) := by decide +kernel
 example : Real.exp (lnnfMu realTr 3 1 + lnnfSigma realTr 3 1 ^ 2 / 2) = 3 :=
   (lognormfit_moments (by norm_num) (by norm_num)).1
+/-- non-vacuity: a leaf meeting every hypothesis of the range / limit laws exists -/
+example : ∃ Phi : ℝ → ℝ, Monotone Phi ∧ (∀ z, 0 ≤ Phi z) ∧ (∀ z, Phi z ≤ 1) ∧
+    Tendsto Phi atBot (𝓝 0) ∧ Tendsto Phi atTop (𝓝 1) :=
+  ⟨gumbelCdf realTr 0 1, gumbel_cdf_monotone one_pos, fun z => (gumbel_cdf_pos z).le,
+    fun z => (gumbel_cdf_lt_one one_ne_zero z).le, gumbel_cdf_tendsto_zero one_pos, gumbel_cdf_tendsto_one one_pos⟩
 /-- the hypotheses of the `_partial` laws are satisfiable (identity leaf) -/
 example (x : ℝ) (hx : 0 < x) : lognormalIcdf realTr id 0 1 (lognormalCdf realTr id 0 1 x) = x :=
   lognormal_icdf_cdf_partial id id (fun _ => rfl) one_ne_zero hx
